@@ -828,7 +828,7 @@ class SCRun:
                 loop.call_external_at(t, self.do_cancel, "ext", arg)
             else:
                 loop.call_external_at(t, self.ext_set, arg)
-        loop.call_at(JANITOR_T, self.janitor)
+        loop.call_at(loop.time() + JANITOR_T, self.janitor)
         try:
             with anyio.move_on_after(ROOT_TIMEOUT) as root:
                 self.scopes["R"] = root
